@@ -236,6 +236,18 @@ def generate(rng, tier, boost):
             cases.append((1303, [pk, h, ec.der(r, s + 1)]))             # does not
             made += 1
             break
+    # genuine curve points with n <= x < p (never produced by random secrets): valid keys like any other
+    found = 0
+    x = N
+    while found < (12 if big else 4) and x < P:
+        pt = lift_x(x)
+        if pt is not None:
+            found += 1
+            for enc in (ec.enc_pub(pt, True), ec.enc_pub(pt, False), ec.enc_pub((pt[0], P - pt[1]), True),
+                        bytes([6 + (pt[1] & 1)]) + b32(pt[0]) + b32(pt[1])):
+                cases.append((1304, [enc]))
+                cases.append((1303, [enc, rbytes(rng, 32), ec.der(rng.randrange(1, N), rng.randrange(1, N // 2))]))
+        x += 1
     # ---- 1304 public key validity ----
     for b in pubkey_cases(rng, 2500 if big else 250):
         cases.append((1304, [b]))
